@@ -24,6 +24,7 @@ pub mod c15;
 pub mod c15b;
 pub mod c16;
 pub mod c17;
+pub mod c17par;
 pub mod c18;
 pub mod c19;
 pub mod crash;
@@ -79,6 +80,7 @@ pub fn replay(prop: &str, file: &str) -> i32 {
 		"C05" | "C17" | "C04" | "C01" | "C02" | "C11" | "C06" | "C14" | "C04s" | "C01s" | "C02s" if r["engine"] == "schedx" => sched::replay(prop.trim_end_matches('s'), &r),
 		"C07" if r["engine"] == "c07-shrink" || r["engine"] == "c07-oversize" => c07::replay(&r),
 		"C17" if r["engine"] == "c17-seq" => c17::replay(&r),
+		"C17" if r["engine"] == "c17-par" => c17par::replay(&r),
 		"C04" => c04::replay(&r),
 		"C08" => c08::replay(&r),
 		"C09" => c09::replay(&r),
